@@ -515,7 +515,7 @@ def judge(m, o, viol, cnt):
                     if kk < 0:
                         want = round_fp(want, MANT[r])
                 if got is None or abs(got - want) > tol:
-                    viol("ipow-value", "int_pow<%d>(%s) = %s, exact %s (allowed deviation %s)" % (kk, base, s, want, float(tol)), desc)
+                    viol("ipow-value", "int_pow<%d>(%s) = %s, exact %s (allowed deviation %s)" % (kk, base, s, want, core.ffloat(tol)), desc)
     elif k == "root":
         u, r = m["u"], m["r"]
         for tag, e in (("sqrt", Fr(1, 2)), ("cbrt", Fr(1, 3)), ("inv", Fr(-1))):
